@@ -166,7 +166,9 @@ def shard(shard_no, nshards, seed, tier, extra):
         else:
             slots = pool[:rng.randint(1, 5)]
             gt = layoutgen.random_ground_truth(rng, nvars=len(slots), slot_pool=slots)
-            how = rng.choice(["small-small", "small-big", "small-mid", "small-alias"])
+            how = rng.choice(["small-small", "small-big", "small-mid", "small-alias", "small-text"])
+            text_pool = [int.from_bytes(nm.ljust(32, b"\0"), "big") for nm in
+                         (b"balances", b"owner", b"allowances", b"my.storage.slot", b"a", b"x y", b"0123456789abcdef0123456789abcdef")]
             sigma = {}
             alias_low = rng.randrange(0, 50)
             for v in gt:
@@ -174,7 +176,9 @@ def shard(shard_no, nshards, seed, tier, extra):
                     t = {"small-small": rng.randrange(0, 200), "small-big": rng.getrandbits(200) | (1 << 130),
                          "small-mid": rng.randrange(1 << 16, 1 << 64),
                          # all images agree in their low 64 bits
-                         "small-alias": alias_low + (rng.randrange(0, 6) << rng.choice([64, 128, 192]))}[how]
+                         "small-alias": alias_low + (rng.randrange(0, 6) << rng.choice([64, 128, 192])),
+                         # slot numbers whose bytes read as text
+                         "small-text": rng.choice(text_pool)}[how]
                     if t not in sigma.values() and t not in table:
                         break
                 sigma[v["slot"]] = t
